@@ -16,12 +16,15 @@ Phases == {"silent",      \* connected, has not sent a byte (PROXY header / TLS 
            "earlyreply",  \* an upload (Content-Length 1 000 000, a thousandth of it sent) that the origin has answered on the head
                           \* alone: the answer is delivered and "the proxy then closes that connection" - without waiting for
                           \* the rest of a body nobody is going to read
+           "upgrading",   \* an upgrade request forwarded, the origin switches protocols (101) later - the shutdown has begun by then:
+                          \* the exchange completes normally, which for an upgrade is the 101 as sent and the tunnel until its end
            "pipelined"}   \* request forwarded, the origin answers later with a body of 16 MiB; meanwhile - the shutdown has begun -
                           \* the client sends its next request on the same connection: that one is not served, the answer
                           \* under way is still delivered in full
 \* when: shutdown begins before or after the listener's own limits (PROXY header / handshake time-out) cut the stalled
 \* peers, or those limits are seconds away (the defaults): then only the shutdown itself can close the stalled peers
-Cases == [stacking : Stackings, clients : (SUBSET Phases) \ {{}}, when : {"before-limits", "after-limits", "limits-far"}]
+Cases == {c \in [stacking : Stackings, clients : (SUBSET Phases) \ {{}}, when : {"before-limits", "after-limits", "limits-far"}] :
+            "upgrading" \in c.clients => Cardinality(c.clients) <= 2}      \* (keeps the number of combinations in hand)
 
 \* mutant (the code before the fix): a connection is registered only once the listener has produced its peer address,
 \* i.e. after the PROXY header; until then Shutdown and Close do not know it
@@ -34,14 +37,14 @@ Init == /\ phase \in [Phases -> {"absent", "open"}] /\ conns = {p \in Phases : p
 Begin == stage = "serving" /\ stage' = "shutting-down" /\ UNCHANGED <<phase, conns, tracked, served>>
 \* in-flight work finishes; every other connection is closed by the shutdown - or, at some time, by its own limit
 Finish(p) == /\ stage = "shutting-down" /\ p \in conns
-             /\ served' = IF p \in {"inflight", "pipelined", "earlyreply"} THEN served \cup {p} ELSE served
+             /\ served' = IF p \in {"inflight", "pipelined", "earlyreply", "upgrading"} THEN served \cup {p} ELSE served
              /\ conns' = conns \ {p} /\ tracked' = tracked \ {p} /\ UNCHANGED <<phase, stage>>
 \* Shutdown / Close only wait for and close what is registered
 Return == stage = "shutting-down" /\ tracked = {} /\ stage' = "returned" /\ UNCHANGED <<phase, conns, tracked, served>>
 Next == Begin \/ Return \/ \E p \in Phases : Finish(p)
 Spec == Init /\ [][Next]_vars /\ WF_vars(Next)
 \* when Run has returned nothing is open and the in-flight exchange was completed
-NothingLeaks == stage = "returned" => conns = {} /\ (\A p \in {"inflight", "pipelined", "earlyreply"} : phase[p] = "open" => p \in served)
+NothingLeaks == stage = "returned" => conns = {} /\ (\A p \in {"inflight", "pipelined", "earlyreply", "upgrading"} : phase[p] = "open" => p \in served)
 Returns == <>(stage = "returned")
 
 \* the same at the level of the process (command/run, runctx, shutdown.go): the shutdown is requested by a signal; an idle
